@@ -52,7 +52,7 @@ def container_grid():
     """indexing and every index- / count-taking member on boundary receivers x boundary positions (before the start,
     -len, -1, 0, len - 1, len, the encoded size of text with multi-byte characters, far out), one operation per program"""
     out = []
-    texts = ['""', '"a"', '"abc"', '"é"', '"aéb"', '"äöü"', '"😀a"', '"Temperatur: 21°C"']
+    texts = ['""', '"a"', '"abc"', '"é"', '"aéb"', '"äöü"', '"😀a"', '"Temperatur: 21°C"', '"e\u0301"', '"ae\u0301o\u0308b"']
     lists = ["[1]", "[1, 2, 3]", '["a", ""]', "[[1], [2, 3]]"]
     idx = ["0", "1", "2", "3", "4", "5", "6", "7", "16", "17", "18", "100", "(0 - 1)", "(0 - 2)", "(0 - 3)", "(0 - 4)", "(0 - 6)", "(0 - 7)", "(0 - 100)",
            "9223372036854775807", "(0 - 9223372036854775807 - 1)"]
@@ -114,6 +114,10 @@ def misc_programs():
         ("time builtin", "fn main() { let t = time.now(); println(t.year > 2000); }\n"),
         ("fmt", "fn main() { println(fmt(\"%d-%s\", 1, \"x\")); println(fmt(\"%d\", \"x\")); }\n"),
         ("assert fails", "fn main() { assert(false); println(\"after\"); }\n"),
+        ("cyclic any-object shown", "fn main() { let a = new { ? }; a.set(\"me\", a); println(\"made\"); println(a); }\n"),
+        ("cyclic any-object compared", "fn main() { let a = new { ? }; a.set(\"me\", a); let b = new { ? }; b.set(\"me\", b); println(a == b); }\n"),
+        ("cyclic any-object to_json", "fn main() { let a = new { ? }; let b = new { ? }; a.set(\"b\", b); b.set(\"a\", a); println(a.to_json()); }\n"),
+        ("cyclic list", "fn main() { let a = new { ? }; let l = [a]; a.set(\"l\", l); println(l.len()); println(l); }\n"),
         ("spawn arg types", "fn w(l: [int], o: { a: int }, s: str) { println(l, o.a, s); }\nfn main() { spawn w([1], new { a: 1 }, \"s\"); }\n"),
     ]
 
